@@ -298,7 +298,7 @@ def distance(s1, s2, only_ub=False, **kwargs):
         if dtw_cc is None:
             logger.warning("C-library not available, using the Python version")
         else:
-            return distance_fast(s1, s2, **s.kwargs())
+            return distance_fast(s1, s2, only_ub=only_ub, **s.kwargs())
     idist_fn, result_fn, ival_fn = innerdistance.inner_dist_fns(s.inner_dist, use_ndim=s.use_ndim)
     r, c = len(s1), len(s2)
     if s.adj_max_length_diff is not None and abs(r - c) > s.adj_max_length_diff:
